@@ -316,7 +316,8 @@ def render_file(entry, vroot):
             lines.append("%s = %s" % (dest, json.dumps(render_value(val, vroot))))
         if entry.get("userdata") is not None:
             lines.append("[tool.behave.userdata]")
-            lines.extend("%s = %s" % (n, json.dumps(v)) for n, v in entry["userdata"])
+            # quoted key: a dot in a bare toml key would open a sub-table
+            lines.extend("%s = %s" % (json.dumps(n), json.dumps(v)) for n, v in entry["userdata"])
     return "\n".join(lines) + "\n"
 
 
@@ -463,7 +464,15 @@ def observe_probe(p, result, exc, get, vroot, spec):
             return row
         if p["okind"] in ("userdata", "udupdate"):
             ud = get("userdata")
-            row["obs"] = [pstr(ud[p["name"]]) if p["name"] in ud else MISSING]
+            if p.get("via") == "getint":        # observed through the typed getter, with a default that is no value
+                sentinel = object()
+                try:
+                    got = ud.getint(p["name"], sentinel)
+                    row["obs"] = [MISSING if got is sentinel else pstr(got)]
+                except Exception as e:
+                    row["exc"] = type(e).__name__
+            else:
+                row["obs"] = [pstr(ud[p["name"]]) if p["name"] in ud else MISSING]
             return row
         v = getattr(result, p["dest"], "<no-attribute>")
         if p["islist"]:
@@ -954,6 +963,49 @@ class Plan(object):
                           "files": [{"where": "cwd", "name": name, "behave": [], "userdata": ud}],
                           "post": {"update_userdata": {"x": "lx1", "w": "lw1"}}})
 
+    # ---- (F2) names are case-sensitive keys
+    def case_keys(self, cases):
+        """two user data names that differ only in case, each assigned or not by the file and by -D"""
+        pairs = [("baseurl", "baseURL"), ("retry.count", "Retry.Count"), ("x", "X"), ("my_key", "MY_KEY")]
+        vals = {"d": [MISSING], "fv1": ["3"], "fv2": ["4"], "cv1": ["5"], "cv2": ["6"], "forced": [NONE]}
+        for c in [c for c in cases if c["k"] == "keys"]:
+            for name in ("behave.ini", "pyproject.toml", "setup.cfg"):
+                v = self.tick()
+                names = pairs[v % len(pairs)]
+                ud = [(n, vals["f" + a][0]) for n, a in zip(names, c["fa"]) if a != "absent"]
+                defs = [["-D", "%s=%s" % (n, vals["c" + a][0])] for n, a in zip(names, c["ca"]) if a != "absent"]
+                if v % 2:
+                    ud.reverse()
+                    defs.reverse()
+                base = {"row": "layer", "dest": "userdata", "okind": "userdata", "islist": False, "pathy": False, "lower": False,
+                        "mfiles": ["absent"], "mcmd": "absent", "hasmode": False, "mode": "", "vals": vals}
+                probes = []
+                for k, n in enumerate(names):
+                    probes.append(dict(base, name=n, files=[c["fa"][k]], cmd=c["ca"][k], form="case-keys:" + ("lower" if k == 0 else "mixed")))
+                    probes.append(dict(base, name=n, files=[c["fa"][k]], cmd=c["ca"][k], via="getint",
+                                       form="case-keys:getint:" + ("lower" if k == 0 else "mixed")))
+                self.add({"type": "config", "layout": DEPTHS[v % 2], "argv": [t for d in defs for t in d], "probes": probes,
+                          "files": [{"where": ("cwd", "home")[v % 3 == 0], "name": name, "behave": [], "userdata": ud if (ud or v % 2) else None}]})
+
+    def miscased_option_keys(self):
+        """an option key of [behave] / [tool.behave] spelled in another case does not mention the option"""
+        for o in self.opts:
+            spellings = [s for s in (o.dest.capitalize(), o.dest.upper(), o.dest.title()) if s != o.dest]
+            for j, spelled in enumerate(dict.fromkeys(spellings)):
+                for name in ("behave.ini", "pyproject.toml", ".behaverc")[: 3 if j == 0 else 2]:
+                    v = self.tick()
+                    fmt = fmt_of(name)
+                    # alone: the option is mentioned nowhere; next to the proper key: the proper key's value counts
+                    self.add({"type": "config", "layout": DEPTHS[v % 2], "argv": [],
+                              "files": [{"where": "cwd", "name": name, "bw": v, "behave": [(spelled, o.file["v1"][fmt])], "userdata": None}],
+                              "probes": [self.layer_probe(o, ["absent"], "absent", "miscased-key")]})
+                    both = [(spelled, o.file["v1"][fmt]), (o.dest, o.file["v2"][fmt])]
+                    if v % 2:
+                        both.reverse()
+                    self.add({"type": "config", "layout": DEPTHS[v % 2], "argv": [],
+                              "files": [{"where": "cwd", "name": name, "bw": v, "behave": both, "userdata": None}],
+                              "probes": [self.layer_probe(o, ["v2"], "absent", "miscased-key+proper")]})
+
     # ---- (G) -D strings, (H) getters
     def defines(self, cases, via_config):
         texts = sorted({"".join(c["text"]) for c in cases if c["k"] in ("define", "render")}, key=lambda s: (len(s), s))
@@ -1072,6 +1124,8 @@ def run(chk):
     plan.paths(cases)
     plan.userdata(layer_cases, 2 if chk.quick() else 8)
     plan.userdata_update(layer_cases)
+    plan.case_keys(cases)
+    plan.miscased_option_keys()
     ndef = plan.defines(cases, 300 if chk.quick() else 3000)
     nget = plan.getters(cases)
 
@@ -1119,7 +1173,9 @@ def run(chk):
                 "n<=%d, x command line in {absent,v1,v2}) x file name/location variants, the file's v2 also as the value that converts to "
                 "something falsy (0, NOTSET) or is empty, in ini-style and toml files; histories of 2 (thorough: also 3) constructions in one "
                 "process (first reads a file assigning the option; later ones: no file, a file omitting/assigning it, load_config=False, any "
-                "command line); a value-less colour switch (--color, --no-color, -C) at every position of every command line of up to 2 "
+                "command line); every option key of a file spelled in another case (alone, next to the proper key); two user data names "
+                "differing only in case x {absent,v1,v2}^2 in the file x {absent,v1,v2}^2 by -D (read directly and through getint); "
+                "a value-less colour switch (--color, --no-color, -C) at every position of every command line of up to 2 "
                 "occurrences of 2 other options (incl. -D defines), and inside the seeded subsets; option x forcing mode switch pairs; seeded "
                 "option subsets; all -D strings up to %d characters over {a,=,blank,\",'} plus every rendering of the documented forms; "
                 "all path shapes up to %d segments x 7 file directories x 2 cwd depths; format/outfiles counts 0..3; all getter texts up to "
